@@ -204,6 +204,18 @@ def gen(tier, seed, sp_factory=None):
         car = ['PartialEq', 'Eq', 'PartialEq'][k]
         mods.append(emit(build(sh, car, car == 'Eq'), f'm{len(mods):04d}', f'{S.shape_id(sh)}/carrier={car}/ignore+method on one field'))
     mods += special_modules(len(mods))
+    decl, anyv, vidx = S.big_enum('PartialEq')
+    hb = Harness('h_big', covers=['equal', 'unequal'])
+    bbody = decl + anyv + vidx + hb.attrs() + '''pub fn h_big() {
+    let a = anyv();
+    let b = anyv();
+    let o = match (&a, &b) { (Big::Last(x), Big::Last(y)) => x == y, _ => vidx(&a) == vidx(&b) };
+    kani::cover!(o, "equal");
+    kani::cover!(!o, "unequal");
+    assert!((a == b) == o && (a != b) == !o, "== on a 261-variant enum differs from same-variant-and-payload");
+}
+'''
+    mods.append(Module(f'm{len(mods):04d}', 'enum with 261 variants (V0..V259, Last(u8))', bbody, [hb], sample=dict(type_definition='enum Big { V0, .., V259, Last(u8) }'), functions=FUNCTIONS))
     from .runner import empty_enum_module
     for el, b in [('PartialEq', 'PartialEq'), ('PartialEq, Eq', 'PartialEq + Eq')]:
         mods.append(empty_enum_module(f'm{len(mods):04d}', el, b, FUNCTIONS))
